@@ -99,7 +99,8 @@ Definition get_or_create (v2 : bool) (u : univ) (n : name) : univ * name :=
           let o := ([], bn) in
           ({| objs := match nlookup o (objs u) with Some _ => objs u | None => nset o (blank o bk) (objs u) end;
               tkeys := nset n o (tkeys u) |}, o)
-      | None => ({| objs := nset n (blank n []) (objs u); tkeys := nset n n (tkeys u) |}, n)
+      | None => ({| objs := match nlookup n (objs u) with Some _ => objs u | None => nset n (blank n []) (objs u) end;
+                    tkeys := nset n n (tkeys u) |}, n)
       end
   end.
 Definition kind_of (u : univ) (o : name) : str := match nlookup o (objs u) with Some e => e_kind e | None => [] end.
@@ -113,152 +114,164 @@ Definition set_kind (k : string) (e : entry) : entry :=
   {| e_name := e_name e; e_kind := s k; e_elem := e_elem e; e_key := e_key e; e_under := e_under e; e_len := e_len e;
      e_members := e_members e; e_methods := e_methods e; e_sig := e_sig e; e_tparams := e_tparams e; e_const := e_const e |}.
 
+(* setters for the fields a walk fills in *)
+Definition with_elem (n : name) (x : entry) : entry :=
+  {| e_name := e_name x; e_kind := e_kind x; e_elem := Some n; e_key := e_key x; e_under := e_under x; e_len := e_len x;
+     e_members := e_members x; e_methods := e_methods x; e_sig := e_sig x; e_tparams := e_tparams x; e_const := e_const x |}.
+Definition with_key (n : name) (x : entry) : entry :=
+  {| e_name := e_name x; e_kind := e_kind x; e_elem := e_elem x; e_key := Some n; e_under := e_under x; e_len := e_len x;
+     e_members := e_members x; e_methods := e_methods x; e_sig := e_sig x; e_tparams := e_tparams x; e_const := e_const x |}.
+Definition with_under (n : name) (x : entry) : entry :=
+  {| e_name := e_name x; e_kind := e_kind x; e_elem := e_elem x; e_key := e_key x; e_under := Some n; e_len := e_len x;
+     e_members := e_members x; e_methods := e_methods x; e_sig := e_sig x; e_tparams := e_tparams x; e_const := e_const x |}.
+Definition with_len (l : N) (x : entry) : entry :=
+  {| e_name := e_name x; e_kind := e_kind x; e_elem := e_elem x; e_key := e_key x; e_under := e_under x; e_len := l;
+     e_members := e_members x; e_methods := e_methods x; e_sig := e_sig x; e_tparams := e_tparams x; e_const := e_const x |}.
+Definition with_members (ms : list (str * bool * str * name)) (x : entry) : entry :=
+  {| e_name := e_name x; e_kind := e_kind x; e_elem := e_elem x; e_key := e_key x; e_under := e_under x; e_len := e_len x;
+     e_members := ms; e_methods := e_methods x; e_sig := e_sig x; e_tparams := e_tparams x; e_const := e_const x |}.
+Definition with_methods (ms : list (str * name)) (x : entry) : entry :=
+  {| e_name := e_name x; e_kind := e_kind x; e_elem := e_elem x; e_key := e_key x; e_under := e_under x; e_len := e_len x;
+     e_members := e_members x; e_methods := ms; e_sig := e_sig x; e_tparams := e_tparams x; e_const := e_const x |}.
+Definition with_sig (g : sig) (x : entry) : entry :=
+  {| e_name := e_name x; e_kind := e_kind x; e_elem := e_elem x; e_key := e_key x; e_under := e_under x; e_len := e_len x;
+     e_members := e_members x; e_methods := e_methods x; e_sig := Some g; e_tparams := e_tparams x; e_const := e_const x |}.
+Definition with_tparams (tp : list (str * name)) (x : entry) : entry :=
+  {| e_name := e_name x; e_kind := e_kind x; e_elem := e_elem x; e_key := e_key x; e_under := e_under x; e_len := e_len x;
+     e_members := e_members x; e_methods := e_methods x; e_sig := e_sig x; e_tparams := tp; e_const := e_const x |}.
+
 Section Walk.
 Variable v2 : bool.
 Variable p : prog.
+
+Section Step.
+(* [rec] is the recursive call (walkType on a smaller budget) *)
+Variable rec : univ -> option name -> N -> option (univ * name).
+
+Fixpoint walk_list (u : univ) (l : list N) : option (univ * list name) :=
+  match l with
+  | [] => Some (u, [])
+  | x :: l' => match rec u None x with
+               | Some (u1, n1) => match walk_list u1 l' with Some (u2, ns) => Some (u2, n1 :: ns) | None => None end
+               | None => None end
+  end.
+Fixpoint walk_methods (u : univ) (ms : list (str * str * N)) : option (univ * list (str * name)) :=
+  match ms with
+  | [] => Some (u, [])
+  | (mn, mstr, sg) :: ms' =>
+      match rec u (Some (name_of_string v2 mstr)) sg with
+      | Some (u1, n1) => match walk_methods u1 ms' with Some (u2, r) => Some (u2, (mn, n1) :: r) | None => None end
+      | None => None end
+  end.
+
+(* create (get) the entry, stop if it is complete, mark it with its kind, then fill it *)
+Definition simple (u : univ) (nm : name) (k : string) (fill : univ -> option (univ * (entry -> entry))) : option (univ * name) :=
+  let '(u0, o) := get_or_create v2 u nm in
+  if complete u0 o then Some (u0, o) else
+  let u1 := update u0 o (set_kind k) in
+  match fill u1 with
+  | Some (u2, g) => Some (update u2 o g, o)
+  | None => None
+  end.
+
+(* "If the underlying type didn't already add methods, add them." *)
+Definition attach (r : option (univ * name)) (ms : list (str * str * N)) : option (univ * name) :=
+  match r with
+  | None => None
+  | Some (u1, o) =>
+      match nlookup o (objs u1) with
+      | Some e => match e_methods e with
+                  | [] => match walk_methods u1 ms with
+                          | Some (u2, r) => Some (update u2 o (with_methods r), o)
+                          | None => None end
+                  | _ => Some (u1, o)
+                  end
+      | None => Some (u1, o)
+      end
+  end.
+
+Definition walk_step (u : univ) (use : option name) (t : N) : option (univ * name) :=
+  match plookup t p with
+  | None => None
+  | Some (tstr, sh) =>
+    let nm := match use with Some n => n | None => name_of_string v2 tstr end in
+    match sh with
+    | SBasic n =>
+        let '(u0, o) := get_or_create v2 u ([], n) in
+        if complete u0 o then Some (u0, o) else Some (update u0 o (set_kind "Unsupported"%string), o)
+    | SPtr e => simple u nm "Pointer"%string (fun u1 => match rec u1 None e with Some (u2, n) => Some (u2, with_elem n) | None => None end)
+    | SSlice e => simple u nm "Slice"%string (fun u1 => match rec u1 None e with Some (u2, n) => Some (u2, with_elem n) | None => None end)
+    | SChan e => simple u nm "Chan"%string (fun u1 => match rec u1 None e with Some (u2, n) => Some (u2, with_elem n) | None => None end)
+    | SArray len e => simple u nm "Array"%string (fun u1 => match rec u1 None e with
+                        | Some (u2, n) => Some (u2, fun x => with_len len (with_elem n x)) | None => None end)
+    | SMap k e => simple u nm "Map"%string (fun u1 => match rec u1 None e with          (* Elem is walked before Key *)
+                    | Some (u2, ne) => match rec u2 None k with
+                                       | Some (u3, nk) => Some (u3, fun x => with_key nk (with_elem ne x))
+                                       | None => None end
+                    | None => None end)
+    | SStruct fs => simple u nm "Struct"%string (fun u1 => match walk_list u1 (map snd fs) with
+                    | Some (u2, ns) => Some (u2, with_members (map (fun fn => (fst (fst (fst (fst fn))), snd (fst (fst (fst fn))), snd (fst (fst fn)), snd fn)) (combine fs ns)))
+                    | None => None end)
+    | SIface ms => simple u nm "Interface"%string (fun u1 => match walk_methods u1 ms with
+                    | Some (u2, r) => Some (u2, with_methods r)
+                    | None => None end)
+    | SFunc ps rs vr recv => simple u nm "Func"%string (fun u1 =>
+                    match walk_list u1 (map snd ps) with
+                    | Some (u2, pn) => match walk_list u2 (map snd rs) with
+                        | Some (u3, rn) =>
+                            match (match recv with
+                                   | Some r => match rec u3 None r with Some (u4, n) => Some (u4, Some n) | None => None end
+                                   | None => Some (u3, None) end) with
+                            | Some (u4, rc) => Some (u4, with_sig {| s_params := combine (map fst ps) pn; s_results := combine (map fst rs) rn;
+                                                                      s_variadic := vr; s_recv := rc |})
+                            | None => None end
+                        | None => None end
+                    | None => None end)
+    | STypeParam => Some (u, nm)        (* a fresh object that is NOT put into the universe *)
+    | SOther => let '(u0, o) := get_or_create v2 u nm in
+                if complete u0 o then Some (u0, o) else Some (update u0 o (set_kind "Unsupported"%string), o)
+    | SNamed cls under ms tps origin =>
+        let n0 := name_of_string v2 tstr in
+        if N.eqb cls 0 then
+          let '(u0, o) := get_or_create v2 u n0 in
+          if complete u0 o then Some (u0, o) else
+          let u1 := update u0 o (set_kind "Alias"%string) in
+          match rec u1 None under with
+          | Some (u2, nu) => attach (Some (update u2 o (with_under nu), o)) ms
+          | None => None end
+        else if N.eqb cls 1 && v2 then
+          (* generic declarations are described from their origin, whichever use comes first *)
+          let '(under', ms') := match origin with
+                                | Some og => match plookup og p with
+                                             | Some (_, SNamed _ u' m' _ _) => (u', m')
+                                             | _ => (under, ms) end
+                                | None => (under, ms) end in
+          let nmg := match tps with
+                     | [] => n0
+                     | _ => (fst n0, hd [] (split_on LBR (snd n0)) ++ [LBR] ++ join [44%N] (map fst tps) ++ [93%N])
+                     end in
+          match walk_list u (map snd tps) with
+          | None => None
+          | Some (ut, tpn) =>
+            let '(u0, o) := get_or_create v2 ut nmg in
+            if complete u0 o then Some (u0, o) else
+            match rec u0 (Some nmg) under' with
+            | Some (u1, o1) => attach (Some (update u1 o1 (with_tparams (combine (map fst tps) tpn)), o1)) ms'
+            | None => None end
+          end
+        else
+          let '(u0, o) := get_or_create v2 u n0 in
+          if complete u0 o then Some (u0, o) else
+          attach (rec u0 (Some n0) under) ms
+    end
+  end.
+End Step.
 
 (* walkType.  None = out of fuel or a dangling node reference (excluded by the theorems) *)
 Fixpoint walk (fuel : nat) (u : univ) (use : option name) (t : N) : option (univ * name) :=
   match fuel with
   | 0 => None
-  | S f =>
-    let tstr := match plookup t p with Some (ts, _) => ts | None => [] end in
-    let nm := match use with Some n => n | None => name_of_string v2 tstr end in
-    let walk_list := fix wl (u : univ) (l : list N) : option (univ * list name) :=
-        match l with
-        | [] => Some (u, [])
-        | x :: l' => match walk f u None x with
-                     | Some (u1, n1) => match wl u1 l' with Some (u2, ns) => Some (u2, n1 :: ns) | None => None end
-                     | None => None end
-        end in
-    let walk_methods := fix wm (u : univ) (ms : list (str * str * N)) : option (univ * list (str * name)) :=
-        match ms with
-        | [] => Some (u, [])
-        | (mn, mstr, sg) :: ms' =>
-            match walk f u (Some (name_of_string v2 mstr)) sg with
-            | Some (u1, n1) => match wm u1 ms' with Some (u2, r) => Some (u2, (mn, n1) :: r) | None => None end
-            | None => None end
-        end in
-    (* composite with one obvious shape: create, stop if complete, mark, fill *)
-    let simple (k : string) (fill : univ -> option (univ * (entry -> entry))) :=
-        let '(u0, o) := get_or_create v2 u nm in
-        if complete u0 o then Some (u0, o) else
-        let u1 := update u0 o (set_kind k) in
-        match fill u1 with
-        | Some (u2, g) => Some (update u2 o g, o)
-        | None => None
-        end in
-    match plookup t p with
-    | None => None
-    | Some (_, sh) =>
-      match sh with
-      | SBasic n =>
-          let '(u0, o) := get_or_create v2 u ([], n) in
-          if complete u0 o then Some (u0, o) else Some (update u0 o (set_kind "Unsupported"%string), o)
-      | SPtr e => simple "Pointer"%string (fun u1 => match walk f u1 None e with
-                    | Some (u2, n) => Some (u2, fun x => {| e_name := e_name x; e_kind := e_kind x; e_elem := Some n; e_key := e_key x; e_under := e_under x;
-                         e_len := e_len x; e_members := e_members x; e_methods := e_methods x; e_sig := e_sig x; e_tparams := e_tparams x; e_const := e_const x |})
-                    | None => None end)
-      | SSlice e => simple "Slice"%string (fun u1 => match walk f u1 None e with
-                    | Some (u2, n) => Some (u2, fun x => {| e_name := e_name x; e_kind := e_kind x; e_elem := Some n; e_key := e_key x; e_under := e_under x;
-                         e_len := e_len x; e_members := e_members x; e_methods := e_methods x; e_sig := e_sig x; e_tparams := e_tparams x; e_const := e_const x |})
-                    | None => None end)
-      | SChan e => simple "Chan"%string (fun u1 => match walk f u1 None e with
-                    | Some (u2, n) => Some (u2, fun x => {| e_name := e_name x; e_kind := e_kind x; e_elem := Some n; e_key := e_key x; e_under := e_under x;
-                         e_len := e_len x; e_members := e_members x; e_methods := e_methods x; e_sig := e_sig x; e_tparams := e_tparams x; e_const := e_const x |})
-                    | None => None end)
-      | SArray len e => simple "Array"%string (fun u1 => match walk f u1 None e with
-                    | Some (u2, n) => Some (u2, fun x => {| e_name := e_name x; e_kind := e_kind x; e_elem := Some n; e_key := e_key x; e_under := e_under x;
-                         e_len := len; e_members := e_members x; e_methods := e_methods x; e_sig := e_sig x; e_tparams := e_tparams x; e_const := e_const x |})
-                    | None => None end)
-      | SMap k e => simple "Map"%string (fun u1 => match walk f u1 None e with          (* Elem is walked before Key *)
-                    | Some (u2, ne) => match walk f u2 None k with
-                        | Some (u3, nk) => Some (u3, fun x => {| e_name := e_name x; e_kind := e_kind x; e_elem := Some ne; e_key := Some nk; e_under := e_under x;
-                             e_len := e_len x; e_members := e_members x; e_methods := e_methods x; e_sig := e_sig x; e_tparams := e_tparams x; e_const := e_const x |})
-                        | None => None end
-                    | None => None end)
-      | SStruct fs => simple "Struct"%string (fun u1 => match walk_list u1 (map snd fs) with
-                    | Some (u2, ns) => Some (u2, fun x => {| e_name := e_name x; e_kind := e_kind x; e_elem := e_elem x; e_key := e_key x; e_under := e_under x;
-                         e_len := e_len x; e_members := map (fun fn => (fst (fst (fst (fst fn))), snd (fst (fst (fst fn))), snd (fst (fst fn)), snd fn)) (combine fs ns);
-                         e_methods := e_methods x; e_sig := e_sig x; e_tparams := e_tparams x; e_const := e_const x |})
-                    | None => None end)
-      | SIface ms => simple "Interface"%string (fun u1 => match walk_methods u1 ms with
-                    | Some (u2, r) => Some (u2, fun x => {| e_name := e_name x; e_kind := e_kind x; e_elem := e_elem x; e_key := e_key x; e_under := e_under x;
-                         e_len := e_len x; e_members := e_members x; e_methods := r; e_sig := e_sig x; e_tparams := e_tparams x; e_const := e_const x |})
-                    | None => None end)
-      | SFunc ps rs vr recv => simple "Func"%string (fun u1 =>
-                    match walk_list u1 (map snd ps) with
-                    | Some (u2, pn) => match walk_list u2 (map snd rs) with
-                        | Some (u3, rn) =>
-                            match (match recv with
-                                   | Some r => match walk f u3 None r with Some (u4, n) => Some (u4, Some n) | None => None end
-                                   | None => Some (u3, None) end) with
-                            | Some (u4, rc) => Some (u4, fun x => {| e_name := e_name x; e_kind := e_kind x; e_elem := e_elem x; e_key := e_key x; e_under := e_under x;
-                                 e_len := e_len x; e_members := e_members x; e_methods := e_methods x;
-                                 e_sig := Some {| s_params := combine (map fst ps) pn; s_results := combine (map fst rs) rn; s_variadic := vr; s_recv := rc |};
-                                 e_tparams := e_tparams x; e_const := e_const x |})
-                            | None => None end
-                        | None => None end
-                    | None => None end)
-      | STypeParam => Some (u, nm)        (* a fresh object that is NOT put into the universe *)
-      | SOther => let '(u0, o) := get_or_create v2 u nm in
-                  if complete u0 o then Some (u0, o) else Some (update u0 o (set_kind "Unsupported"%string), o)
-      | SNamed cls under ms tps origin =>
-          let n0 := name_of_string v2 tstr in
-          let attach (r : option (univ * name)) (ms : list (str * str * N)) :=
-              match r with
-              | None => None
-              | Some (u1, o) =>
-                  match nlookup o (objs u1) with
-                  | Some e => match e_methods e with
-                              | [] => match walk_methods u1 ms with
-                                      | Some (u2, r) => Some (update u2 o (fun x => {| e_name := e_name x; e_kind := e_kind x; e_elem := e_elem x; e_key := e_key x;
-                                            e_under := e_under x; e_len := e_len x; e_members := e_members x; e_methods := r; e_sig := e_sig x;
-                                            e_tparams := e_tparams x; e_const := e_const x |}), o)
-                                      | None => None end
-                              | _ => Some (u1, o)
-                              end
-                  | None => Some (u1, o)
-                  end
-              end in
-          if N.eqb cls 0 then
-            let '(u0, o) := get_or_create v2 u n0 in
-            if complete u0 o then Some (u0, o) else
-            let u1 := update u0 o (set_kind "Alias"%string) in
-            match walk f u1 None under with
-            | Some (u2, nu) =>
-                attach (Some (update u2 o (fun x => {| e_name := e_name x; e_kind := e_kind x; e_elem := e_elem x; e_key := e_key x; e_under := Some nu;
-                     e_len := e_len x; e_members := e_members x; e_methods := e_methods x; e_sig := e_sig x; e_tparams := e_tparams x; e_const := e_const x |}), o)) ms
-            | None => None end
-          else if N.eqb cls 1 && v2 then
-            (* generic declarations are described from their origin, whichever use comes first *)
-            let '(under', ms') := match origin with
-                                  | Some og => match plookup og p with
-                                               | Some (_, SNamed _ u' m' _ _) => (u', m')
-                                               | _ => (under, ms) end
-                                  | None => (under, ms) end in
-            let nmg := match tps with
-                       | [] => n0
-                       | _ => (fst n0, hd [] (split_on LBR (snd n0)) ++ [LBR] ++ join [44%N] (map fst tps) ++ [93%N])
-                       end in
-            match walk_list u (map snd tps) with
-            | None => None
-            | Some (ut, tpn) =>
-              let '(u0, o) := get_or_create v2 ut nmg in
-              if complete u0 o then Some (u0, o) else
-              match walk f u0 (Some nmg) under' with
-              | Some (u1, o1) =>
-                  attach (Some (update u1 o1 (fun x => {| e_name := e_name x; e_kind := e_kind x; e_elem := e_elem x; e_key := e_key x; e_under := e_under x;
-                       e_len := e_len x; e_members := e_members x; e_methods := e_methods x; e_sig := e_sig x;
-                       e_tparams := combine (map fst tps) tpn; e_const := e_const x |}), o1)) ms'
-              | None => None end
-            end
-          else
-            let '(u0, o) := get_or_create v2 u n0 in
-            if complete u0 o then Some (u0, o) else
-            attach (walk f u0 (Some n0) under) ms
-      end
-    end
+  | S f => walk_step (walk f) u use t
   end.
 End Walk.
 
